@@ -391,7 +391,9 @@ class Expression:
             return self
 
     def __radd__(self, other: object) -> ArithmeticExpressionT:
-        assert is_number(other)
+        if not is_number(other):
+            return NotImplemented
+
         if is_nonzero(other):
             if self:
                 return Sum((other, self))
